@@ -2946,17 +2946,22 @@ def rule_text_unmodified(ctx: Ctx, rid="C08.TEXT-UNMODIFIED"):
     par = ps.args.args[0].arg
     env, multi = _single_assign_env(ps)
     toks = [c for c in walk_no_nested(ps) if isinstance(c, ast.Call) and isinstance(c.func, ast.Attribute) and c.func.attr == "tokenize"]
-    if len(toks) != 1:
+    parse_decided = not PS.parse_semantics(ctx)["undecided"]
+    if parse_decided:
+        # the parse_source half is decided by the two abstract calls; only recompile's half is read off the text below
+        PS.decide(ctx, rid, ("text", "result"), ok_text="the lexer receives the caller's text itself and the parser receives the lexer's stream")
+    elif len(toks) != 1:
         raise AnalysisError("parse_source no longer contains exactly one tokenize() call")
-    arg = toks[0].args[0] if toks[0].args else None
+    arg = toks[0].args[0] if (toks and toks[0].args) else None
     stores = [n for n in walk_no_nested(ps) if isinstance(n, ast.Name) and isinstance(n.ctx, ast.Store) and n.id == par]
     a = _subst(arg, env) if arg is not None else None
     ok = isinstance(a, ast.Name) and a.id == par and not stores
-    ctx.rep.check(ok, rid, f"{WF}:parse_source[tokenize argument]",
-                  "the lexer receives the caller's text unchanged" if ok else
-                  f"the lexer receives `{norm(a) if a is not None else '?'}`" + (f" ({par} is reassigned: {norm(stores[0])})" if stores else "") +
-                  ", not the caller's text: characters are rewritten before lexing (e.g. str.splitlines() also breaks at \\r, "
-                  "\\x0c, U+2028, which `//.*` does not treat as a line end)", site=wf.site(toks[0]), text=f"tokenize({norm(a) if a is not None else None})")
+    if not parse_decided:
+        ctx.rep.check(ok, rid, f"{WF}:parse_source[tokenize argument]",
+                      "the lexer receives the caller's text unchanged" if ok else
+                      f"the lexer receives `{norm(a) if a is not None else '?'}`" + (f" ({par} is reassigned: {norm(stores[0])})" if stores else "") +
+                      ", not the caller's text: characters are rewritten before lexing (e.g. str.splitlines() also breaks at \\r, "
+                      "\\x0c, U+2028, which `//.*` does not treat as a line end)", site=wf.site(toks[0]), text=f"tokenize({norm(a) if a is not None else None})")
     m, c = _evaluator(ctx)
     rec = m.get_method(c, "recompile")
     rp = rec.args.args[1].arg
